@@ -216,10 +216,19 @@ fn has_serde_derive(attrs: &[syn::Attribute]) -> bool {
 struct ShapeCollector {
     out: Vec<(String, Result<String, String>)>,
     discriminants: Vec<(String, Vec<(String, Option<String>)>)>,
+    /// named fields of every serde struct, in declaration order (the positional binary forms depend on it even
+    /// when neighbouring fields have the same layout)
+    fields: Vec<(String, Vec<String>)>,
 }
 
 impl<'ast> Visit<'ast> for ShapeCollector {
     fn visit_item_struct(&mut self, s: &'ast syn::ItemStruct) {
+        if has_serde_derive(&s.attrs) {
+            let names: Vec<String> = s.fields.iter().filter_map(|f| f.ident.as_ref().map(|i| i.to_string())).collect();
+            if !names.is_empty() {
+                self.fields.push((s.ident.to_string(), names));
+            }
+        }
         if has_serde_derive(&s.attrs) && s.generics.params.iter().count() > 0 {
             self.out.push((s.ident.to_string(), fields_shape(&s.fields)));
         } else if has_serde_derive(&s.attrs) && (s.ident == "InnerPointShareG1" || s.ident == "InnerPointShareG2") {
@@ -270,7 +279,7 @@ fn main() {
     walk(&src, &mut files);
     let mut cc = ConstCollector { consts: vec![], ctx: vec![] };
     let mut lc = LabelCollector { cur: String::new(), labels: BTreeMap::new() };
-    let mut sc = ShapeCollector { out: vec![], discriminants: vec![] };
+    let mut sc = ShapeCollector { out: vec![], discriminants: vec![], fields: vec![] };
     let mut parsed = vec![];
     for f in &files {
         let text = std::fs::read_to_string(f).unwrap();
@@ -303,6 +312,11 @@ fn main() {
             .map(|(v, d)| format!("({}, {})", bytes_lit(v.as_bytes()), match d { Some(x) => format!("Some {}", x.trim()), None => "None".into() }))
             .collect();
         writeln!(s, "Definition variants_{} : list (bytes * option N) := [{}].", e, items.join("; ")).unwrap();
+    }
+    s.push_str("\n(* named fields of the serde structs in declaration order *)\n");
+    for (n, fs) in &sc.fields {
+        let items: Vec<String> = fs.iter().map(|f| bytes_lit(f.as_bytes())).collect();
+        writeln!(s, "Definition fields_{} : list bytes := [{}].", n, items.join("; ")).unwrap();
     }
     std::fs::write(out.join("Consts.v"), s).unwrap();
 
